@@ -171,12 +171,12 @@ Qed.
 (* ================================================================== *)
 
 Lemma tv_next_cell (inp : input) (v : nat) (p : cell) (x : nat) :
-  temporal_values inp (c_end p) (c_stop p) x =
+  temporal_values inp v (c_end p) (c_stop p) x =
   (c_travel (next_cell inp v p x), c_arrival (next_cell inp v p x),
    c_start (next_cell inp v p x), c_end (next_cell inp v p x)).
 Proof.
   unfold next_cell.
-  destruct (temporal_values inp (c_end p) (c_stop p) x) as [[[tr ar] st] en]. reflexivity.
+  destruct (temporal_values inp v (c_end p) (c_stop p) x) as [[[tr ar] st] en]. reflexivity.
 Qed.
 
 (* the vehicle's last stop never waits: the wait the max-wait estimates add
@@ -213,7 +213,7 @@ Lemma nc_start_of_arrival (inp : input) (v : nat) (p q : cell) (x : nat) :
 Proof.
   intros Eg E. assert (Es : c_start (next_cell inp v p x) = c_start (next_cell inp v q x)).
   { rewrite !nc_start, E. reflexivity. }
-  split; [exact Es|]. rewrite !nc_end, Es. unfold stop_duration_at. rewrite Eg. reflexivity.
+  split; [exact Es|]. rewrite !nc_end, Es. unfold stop_duration_on. rewrite Eg. reflexivity.
 Qed.
 
 (* the start depends on the arrival only *)
@@ -222,25 +222,28 @@ Lemma nc_start_eq (inp : input) (v : nat) (p q : cell) (x : nat) :
   c_start (next_cell inp v p x) = c_start (next_cell inp v q x).
 Proof. intros E. rewrite !nc_start, E. reflexivity. Qed.
 
-(* equal arrival and equal end: equal group part of the time spent at the stop *)
+(* equal arrival and equal end: equal (scaled) group part of the time spent at
+   the stop -- the scaled values, not the group durations: truncation is not
+   injective *)
 Lemma nc_extra_of_end (inp : input) (v : nat) (p q : cell) (x : nat) :
   c_arrival (next_cell inp v p x) = c_arrival (next_cell inp v q x) ->
   c_end (next_cell inp v p x) = c_end (next_cell inp v q x) ->
-  dgroup_extra inp (c_stop p) x = dgroup_extra inp (c_stop q) x.
+  scale_duration inp v (dgroup_extra inp (c_stop p) x) =
+  scale_duration inp v (dgroup_extra inp (c_stop q) x).
 Proof.
   intros Ea Ee. pose proof (nc_start_eq inp v p q x Ea) as Es.
-  rewrite !nc_end, Es in Ee. unfold stop_duration_at in Ee. lia.
+  rewrite !nc_end, Es in Ee. unfold stop_duration_on in Ee. lia.
 Qed.
 
 (* what the estimates compute for the end, against the cached cell: when the
    group part does not depend on the predecessor, equal arrival gives equal end *)
 Lemma tv_end_of_arrival (inp : input) (v : nat) (po : cell) (x : nat) (endv : Z) (prev : nat) :
   dgroup_extra inp prev x = dgroup_extra inp (c_stop po) x ->
-  forall tr ar st en, temporal_values inp endv prev x = (tr, ar, st, en) ->
+  forall tr ar st en, temporal_values inp v endv prev x = (tr, ar, st, en) ->
   ar = c_arrival (next_cell inp v po x) -> en = c_end (next_cell inp v po x).
 Proof.
   intros Eg tr ar st en E Ea. unfold temporal_values in E. injection E as _ Ear Est Een.
-  rewrite <- Een, nc_end, nc_start, <- Ea, <- Ear. unfold stop_duration_at. rewrite Eg. reflexivity.
+  rewrite <- Een, nc_end, nc_start, <- Ea, <- Ear. unfold stop_duration_on. rewrite Eg. reflexivity.
 Qed.
 
 Local Opaque next_cell temporal_values.
@@ -451,7 +454,7 @@ Qed.
 Lemma sim_all_false (inp : input) (v : nat) (check : Z -> Z -> Z -> nat -> bool) :
   forall (stops : list nat) (pc : cell) (endv : Z) (prev : nat),
     endv = c_end pc -> prev = c_stop pc ->
-    sim_all inp endv prev stops check = false ->
+    sim_all inp v endv prev stops check = false ->
     Forall (fun c => check (c_arrival c) (c_start c) (c_end c) (c_stop c) = false)
            (cells_from inp v pc stops).
 Proof.
@@ -641,7 +644,7 @@ Section SimWait.
       Forall (cell_passes inp v) (cells_from inp v po (filter (not_in us) stops)) ->
       to_place = length (filter (fun x => mem_nat x us) stops) ->
       acc = c_wait_acc pc + K -> endv = c_end pc -> prev = c_stop pc -> J pc po ->
-      sim_wait check_end inp us old endv prev stops to_place acc violated guard = false ->
+      sim_wait check_end inp v us old endv prev stops to_place acc violated guard = false ->
       Forall Q (cells_from inp v pc stops).
   Proof.
     induction stops as [|x rest IH]; intros pc po pre to_place acc endv prev Hdom Hold Hok -> -> -> -> HJ H;
@@ -707,12 +710,12 @@ Lemma sim_wait_check_end_irrel (inp : input) (v : nat) (us : list nat) (old : li
   (forall a b x, dgroup_extra inp a x = dgroup_extra inp b x) ->
   forall (stops : list nat) (po : cell) (pre : list cell) (to_place : nat) (acc endv : Z) (prev : nat),
     old = (pre ++ [po]) ++ cells_from inp v po (filter (not_in us) stops) ->
-    sim_wait true inp us old endv prev stops to_place acc violated guard =
-    sim_wait false inp us old endv prev stops to_place acc violated guard.
+    sim_wait true inp v us old endv prev stops to_place acc violated guard =
+    sim_wait false inp v us old endv prev stops to_place acc violated guard.
 Proof.
   intros Hnd Hg. induction stops as [|x rest IH]; intros po pre to_place acc endv prev Hold; [reflexivity|].
   cbn [sim_wait].
-  destruct (temporal_values inp endv prev x) as [[[tr ar] st] en] eqn:Etv.
+  destruct (temporal_values inp v endv prev x) as [[[tr ar] st] en] eqn:Etv.
   cbn [filter] in Hold. destruct (mem_nat x us) eqn:Em; cbn [negb orb] in *.
   - rewrite (IH po pre _ _ _ _ Hold). rewrite !andb_false_r. reflexivity.
   - cbn [cells_from] in Hold. set (co := next_cell inp v po x) in *.
@@ -839,6 +842,38 @@ Proof.
   - destruct (dgroup_of inp a) as [ga|]; [destruct (Nat.eqb g ga)|]; lia.
 Qed.
 
+(* ... and so does the scaled group part, on every vehicle: the group part
+   behind a is 0, or the one behind a at u, or the one behind u at z -- the
+   SAME value is scaled on both sides, so truncation loses nothing here *)
+Lemma dgroup_extra_cases (inp : input) (a u z : nat) :
+  dgroup_extra inp a z = 0 \/ dgroup_extra inp a z = dgroup_extra inp a u \/
+  dgroup_extra inp a z = dgroup_extra inp u z.
+Proof.
+  unfold dgroup_extra. destruct (o_dis_dgroups (in_opts inp)); [left; reflexivity|].
+  destruct (dgroup_of inp z) as [g|]; [|left; reflexivity].
+  destruct (dgroup_of inp u) as [gu|].
+  - destruct (Nat.eqb g gu) eqn:E.
+    + apply Nat.eqb_eq in E. subst gu. right. left. reflexivity.
+    + destruct (dgroup_of inp a) as [ga|]; [|right; right; reflexivity].
+      destruct (Nat.eqb g ga); [left|right; right]; reflexivity.
+  - destruct (dgroup_of inp a) as [ga|]; [|right; right; reflexivity].
+    destruct (Nat.eqb g ga); [left|right; right]; reflexivity.
+Qed.
+
+Lemma scaled_extra_nonneg (inp : input) (v a x : nat) :
+  wf_input inp -> dgroups_nonneg inp -> 0 <= scale_duration inp v (dgroup_extra inp a x).
+Proof. intros Hwf Hn. apply scale_duration_nonneg; [exact Hwf|apply dgroup_extra_nonneg; exact Hn]. Qed.
+
+Lemma scaled_extra_triangle (inp : input) (v a u z : nat) :
+  wf_input inp -> dgroups_nonneg inp ->
+  scale_duration inp v (dgroup_extra inp a z)
+  <= scale_duration inp v (dgroup_extra inp a u) + scale_duration inp v (dgroup_extra inp u z).
+Proof.
+  intros Hwf Hn. pose proof (scaled_extra_nonneg inp v a u Hwf Hn) as H1.
+  pose proof (scaled_extra_nonneg inp v u z Hwf Hn) as H2.
+  destruct (dgroup_extra_cases inp a u z) as [E|[E|E]]; rewrite E; [rewrite scale_duration_0|..]; lia.
+Qed.
+
 Lemma stop_duration_at_inert (inp : input) (a x : nat) :
   dgroups_inert inp -> stop_duration_at inp a x = stop_duration inp x.
 Proof. intros H. unfold stop_duration_at. rewrite (dgroup_extra_inert inp a x H). lia. Qed.
@@ -894,7 +929,7 @@ Definition busy (c : cell) : Z := c_end c - c_wait_acc c.
 
 Lemma busy_step (inp : input) (v : nat) (p : cell) (x : nat) :
   busy (next_cell inp v p x)
-  = busy p + travel_duration inp (c_stop p) x + stop_duration_at inp (c_stop p) x.
+  = busy p + travel_duration inp (c_stop p) x + stop_duration_on inp v (c_stop p) x.
 Proof.
   unfold busy. rewrite nc_end, nc_wait_eq, nc_arrival, nc_travel. lia.
 Qed.
@@ -921,7 +956,7 @@ Definition est_max_wait_vehicle_prefix (inp : input) (s : state) (mv : move) : b
   match iv_max_wait (get_vehicle inp (mv_vehicle mv)) with
   | None => false
   | Some w =>
-      sim_wait true inp us (h_old h) (c_end (h_prev h)) (c_stop (h_prev h)) (h_suffix h) (length us)
+      sim_wait true inp (mv_vehicle mv) us (h_old h) (c_end (h_prev h)) (c_stop (h_prev h)) (h_suffix h) (length us)
                (c_wait_acc (h_prev h)) (fun acc _ _ => w <? acc) (fun _ _ => true)
   end.
 
@@ -1237,7 +1272,7 @@ Section Ctx.
               (next_cell inp vv po x :: cells_from inp vv (next_cell inp vv po x) rest) ->
        Forall Q (next_cell inp vv pc x :: cells_from inp vv (next_cell inp vv pc x) rest)) ->
     Forall dom NSUF -> J PC PC -> acc0 = c_wait_acc PC + K ->
-    sim_wait check_end inp US OLD (c_end PC) (c_stop PC) NSUF (length US) acc0 violated guard = false ->
+    sim_wait check_end inp vv US OLD (c_end PC) (c_stop PC) NSUF (length US) acc0 violated guard = false ->
     Forall Q (cells_from inp vv PC NSUF).
   Proof.
     intros Hviol Jins Jboth Hbreak Hdom HJ Hacc H.
@@ -1252,8 +1287,8 @@ Section Ctx.
 
   Lemma ctx_check_end_irrel (violated : Z -> Z -> nat -> bool) (guard : Z -> nat -> bool) (acc0 : Z) :
     dgroups_inert inp ->
-    sim_wait true inp US OLD (c_end PC) (c_stop PC) NSUF (length US) acc0 violated guard =
-    sim_wait false inp US OLD (c_end PC) (c_stop PC) NSUF (length US) acc0 violated guard.
+    sim_wait true inp vv US OLD (c_end PC) (c_stop PC) NSUF (length US) acc0 violated guard =
+    sim_wait false inp vv US OLD (c_end PC) (c_stop PC) NSUF (length US) acc0 violated guard.
   Proof.
     intros Hdg. destruct ctx_idx as (_ & HIL & HLL).
     assert (HIDX : (IDX < length OLD)%nat) by lia.
@@ -1431,8 +1466,10 @@ Section Ctx.
     set (J := fun pc po : cell =>
                 (c_stop pc < N)%nat /\ (c_stop po < N)%nat /\
                 forall z, (z < N)%nat ->
-                  busy po + travel_duration inp (c_stop po) z + dgroup_extra inp (c_stop po) z
-                  <= busy pc + travel_duration inp (c_stop pc) z + dgroup_extra inp (c_stop pc) z).
+                  busy po + travel_duration inp (c_stop po) z
+                  + scale_duration inp vv (dgroup_extra inp (c_stop po) z)
+                  <= busy pc + travel_duration inp (c_stop pc) z
+                     + scale_duration inp vv (dgroup_extra inp (c_stop pc) z)).
     refine (ctx_sim_wait true _ _ 0 (cl_max_wait_vehicle inp vv)
               J (fun x => (x < N)%nat) _ _ _ _ _ ctx_dom _ _ H).
     - intros c Hc _ w' Ew'. cbv beta in Hc. rewrite Ew in Ew'. injection Ew' as <-.
@@ -1440,13 +1477,13 @@ Section Ctx.
     - (* an inserted stop: the new chain gets later *)
       intros pc po x Hx _ (J1 & J2 & J3). unfold J. rewrite nc_stop.
       split; [exact Hx|]. split; [exact J2|]. intros z Hz.
-      rewrite busy_step. unfold stop_duration_at.
+      rewrite busy_step. unfold stop_duration_on.
       pose proof (J3 z Hz). pose proof (Hmet (c_stop pc) x z J1 Hx Hz).
-      pose proof (stop_duration_nonneg inp x Hdur).
-      pose proof (dgroup_extra_triangle inp (c_stop pc) x z Hdg). lia.
+      pose proof (scale_duration_nonneg inp vv _ Hwf (stop_duration_nonneg inp x Hdur)).
+      pose proof (scaled_extra_triangle inp vv (c_stop pc) x z Hwf Hdg). lia.
     - intros pc po x Hx (J1 & J2 & J3). unfold J. rewrite !nc_stop.
       split; [exact Hx|]. split; [exact Hx|]. intros z Hz.
-      rewrite !busy_step. unfold stop_duration_at.
+      rewrite !busy_step. unfold stop_duration_on.
       pose proof (J3 x Hx). lia.
     - (* the break: equal arrival and equal end mean the new chain has waited no more *)
       intros pc po x rest (J1 & J2 & J3) Hx _ Ea Ee _ _ Hok. specialize (Ee eq_refl).
@@ -2012,11 +2049,11 @@ Qed.
    Exact check: Y still waits 600, accumulated wait 3000 > 2400: the move is
    rejected by the vehicle max-wait constraint and rolled back. *)
 Definition w_opts : options :=
-  mkOptions false false false false false false false false false false false 0 1 0 1 false 0 0 0 0.
+  mkOptions false false false false false false false false false false false 0 1 0 1 false 0 0 0 0 false.
 Definition w_X : istop := mkIStop [] 0 [(3000, 100020)] None 10 [] None 0 0.
 Definition w_Y : istop := mkIStop [] 0 [(6600, 100020)] None 10 [] None 0 0.
 Definition w_veh : ivehicle :=
-  mkIVehicle None [] 0 None None None None (Some 2400) [] 0 true true 0 0.
+  mkIVehicle None [] 0 None None None None (Some 2400) [] 0 true true 0 0 1 1.
 Definition w_mat : list (list Z) :=
   [[0; 3000; 600; 600]; [3000; 0; 6000; 0]; [600; 6000; 0; 0]; [600; 0; 0; 0]].
 Definition w_inp : input :=
@@ -2031,7 +2068,7 @@ Definition w_s2 : state := Eval vm_compute in fst (exec_checked_prefix w_inp w_s
 
 Lemma w_wf : wf_input w_inp.
 Proof.
-  split; [|split; [|split; [|exact (Forall_nil _)]]].
+  split; [|split; [|split; [|split; [exact (Forall_nil _)|mult_wf]]]].
   - vm_compute. repeat (constructor; [simpl; lia|]). constructor.
   - intros x. vm_compute. lia.
   - intros u Hu. vm_compute in Hu. destruct Hu as [<-|[<-|[]]]; discriminate.
@@ -2141,16 +2178,16 @@ Proof. repeat split; vm_compute; reflexivity. Qed.
 
 (* the fix only makes the estimate stricter: whatever the old estimate
    rejected the new one rejects *)
-Lemma sim_wait_guard_mono (ce : bool) (inp : input) (us : list nat) (old : list cell)
+Lemma sim_wait_guard_mono (ce : bool) (inp : input) (v : nat) (us : list nat) (old : list cell)
       (violated : Z -> Z -> nat -> bool) (g1 g2 : Z -> nat -> bool) :
   (forall a x, g2 a x = true -> g1 a x = true) ->
   forall stops endv prev to_place acc,
-    sim_wait ce inp us old endv prev stops to_place acc violated g1 = true ->
-    sim_wait ce inp us old endv prev stops to_place acc violated g2 = true.
+    sim_wait ce inp v us old endv prev stops to_place acc violated g1 = true ->
+    sim_wait ce inp v us old endv prev stops to_place acc violated g2 = true.
 Proof.
   intros Hg. induction stops as [|x rest IH]; intros endv prev to_place acc H; cbn [sim_wait] in *;
     [discriminate|].
-  destruct (temporal_values inp endv prev x) as [[[tr ar] st] en].
+  destruct (temporal_values inp v endv prev x) as [[[tr ar] st] en].
   match type of H with (if ?b && g1 acc x then _ else _) = _ => destruct b eqn:Eb end; cbn [andb] in *.
   - destruct (g1 acc x) eqn:E1; [discriminate|].
     destruct (g2 acc x) eqn:E2; [rewrite (Hg _ _ E2) in E1; discriminate|].
@@ -2185,7 +2222,7 @@ Definition ng_mat : list (list Z) :=
   [[0; 600; 0; 0]; [600; 0; 600; 600]; [0; 600; 0; 0]; [0; 600; 0; 0]].
 Definition ng_inp : input :=
   mkInput [] [mkIStop [] 0 [(300, 100020)] None 10 [] None 0 0; mkIStop [] 0 [(900, 100020)] None 10 [] None 0 0]
-          [mkIVehicle None [] 0 None None None None (Some 500) [] 0 true true 0 0]
+          [mkIVehicle None [] 0 None None None None (Some 500) [] 0 true true 0 0 1 1]
           [mkIUnit [0%nat] []; mkIUnit [1%nat] []] ng_mat ng_mat 0 w_opts [([0%nat], -300)].
 Definition ng_s0 : state :=
   Eval vm_compute in match new_solution ng_inp with Some s => s | None => w_dummy end.
@@ -2197,7 +2234,7 @@ Proof.
   - vm_compute. repeat (constructor; [simpl; lia|]). constructor.
   - intros x. vm_compute. lia.
   - intros u Hu. vm_compute in Hu. destruct Hu as [<-|[<-|[]]]; discriminate.
-  - vm_compute. repeat constructor.
+  - split; [vm_compute; repeat constructor|mult_wf].
 Qed.
 
 Lemma ng_mvY_ok : move_ok ng_inp ng_s0 w_mvY.
@@ -2290,7 +2327,7 @@ Qed.
    wait 3000 instead of 2400 *)
 Definition w3_inp : input :=
   mkInput [] [w_X; w_Y]
-          [mkIVehicle None [] 0 None None None None (Some 3000) [] 0 true true 0 0]
+          [mkIVehicle None [] 0 None None None None (Some 3000) [] 0 true true 0 0 1 1]
           [mkIUnit [0%nat] []; mkIUnit [1%nat] []] w_mat w_mat 0 w_opts [].
 Definition w3_s0 : state :=
   Eval vm_compute in match new_solution w3_inp with Some s => s | None => w_dummy end.
@@ -2324,7 +2361,7 @@ Proof. split; vm_compute; reflexivity. Qed.
    NOT a candidate defect; it only shows the hypothesis is used. *)
 Definition n_st : istop := mkIStop [] 0 [] None 10 [] None 0 0.
 Definition n_veh : ivehicle :=
-  mkIVehicle None [] 0 None None None (Some 100) None [] 0 true true 0 0.
+  mkIVehicle None [] 0 None None None (Some 100) None [] 0 true true 0 0 1 1.
 Definition n_dur : list (list Z) := map (fun _ => [0; 0; 0; 0; 0]) (seqn 5).
 Definition n_dist : list (list Z) :=
   [[0; 5; 0; 0; 0]; [0; 0; 90; 0; 0]; [0; 0; 0; 0; -50]; [15; 10; 0; 0; 0]; [0; 0; 0; 0; 0]].
@@ -2375,10 +2412,10 @@ Qed.
    also compare the END of X (1200 against the cached 600), do not stop, go
    on to Z and answer "violated". *)
 Definition dg_opts : options :=
-  mkOptions false false false false false false false false false false false 0 1 0 1 false 0 0 0 0.
+  mkOptions false false false false false false false false false false false 0 1 0 1 false 0 0 0 0 false.
 Definition dg_plain : istop := mkIStop [] 0 [] None 10 [] None 0 0.
 Definition dg_Z : istop := mkIStop [] 0 [(60, 900); (3600, 7200)] (Some 60) 10 [] None 0 0.
-Definition dg_veh : ivehicle := mkIVehicle None [] 0 None None None None None [] 0 true true 0 0.
+Definition dg_veh : ivehicle := mkIVehicle None [] 0 None None None None None [] 0 true true 0 0 1 1.
 Definition dg_mat : list (list Z) :=
   [[0; 0; 0; 0; 0; 0]; [0; 0; 0; 0; 0; 0]; [0; 0; 0; 0; 0; 0];
    [0; 0; 0; 0; 0; 0]; [0; 0; 0; 0; 0; 0]; [0; 0; 0; 0; 0; 0]].
@@ -2399,7 +2436,7 @@ Proof.
   - vm_compute. repeat (constructor; [simpl; lia|]). constructor.
   - intros x. vm_compute. lia.
   - intros u Hu. vm_compute in Hu. destruct Hu as [<-|[<-|[]]]; discriminate.
-  - vm_compute. repeat constructor.
+  - split; [vm_compute; repeat constructor|mult_wf].
 Qed.
 
 Lemma dg_new : new_solution dg_inp = Some dg_s0.
@@ -2483,7 +2520,7 @@ Qed.
    vehicle max wait of 60 s instead of Z's *)
 Definition dgv_inp : input :=
   mkInput [] [dg_plain; dg_plain; mkIStop [] 0 [(60, 900); (3600, 7200)] None 10 [] None 0 0; dg_plain]
-          [mkIVehicle None [] 0 None None None None (Some 60) [] 0 true true 0 0]
+          [mkIVehicle None [] 0 None None None None (Some 60) [] 0 true true 0 0 1 1]
           [mkIUnit [0; 1; 2]%nat []; mkIUnit [3%nat] []]
           dg_mat dg_mat 0 dg_opts [([0; 1]%nat, 600)].
 Definition dgv_s0 : state :=
@@ -2497,7 +2534,7 @@ Proof.
   - vm_compute. repeat (constructor; [simpl; lia|]). constructor.
   - intros x. vm_compute. lia.
   - intros u Hu. vm_compute in Hu. destruct Hu as [<-|[<-|[]]]; discriminate.
-  - vm_compute. repeat constructor.
+  - split; [vm_compute; repeat constructor|mult_wf].
 Qed.
 
 Lemma dgv_new : new_solution dgv_inp = Some dgv_s0.
@@ -2581,7 +2618,7 @@ Definition dg_off_inp : input :=
   mkInput [] [dg_plain; dg_plain; dg_Z; dg_plain] [dg_veh]
           [mkIUnit [0; 1; 2]%nat []; mkIUnit [3%nat] []]
           dg_mat dg_mat 0
-          (mkOptions false false false false false false false false false false false 0 1 0 1 true 0 0 0 0)
+          (mkOptions false false false false false false false false false false false 0 1 0 1 true 0 0 0 0 false)
           [([0; 1]%nat, 600)].
 Definition dg_off_s0 : state :=
   Eval vm_compute in match new_solution dg_off_inp with Some s => s | None => w_dummy end.
